@@ -14,6 +14,8 @@ MAXC = 512
 COMMON = ['-std=c++17', '-I' + REPO, '-I' + os.path.join(ROOT, 'engine'), '-I' + ROOT, '-pthread',
           '-ffp-contract=off', '-fno-fast-math', '-Wno-deprecated-declarations', '-DGLM_ENABLE_EXPERIMENTAL']
 OPT = ['g++', '-O2'] + COMMON
+FUZZ = ['clang++', '-O1', '-g', '-fsanitize=fuzzer,address,undefined,float-cast-overflow', '-fno-sanitize=float-divide-by-zero',
+        '-fsanitize-recover=undefined,float-cast-overflow', '-fno-omit-frame-pointer', '-DPBT_UBSAN_HOOK', '-Dmain=pbt_harness_main']
 SAN = ['clang++', '-O1', '-g', '-fsanitize=address,undefined,float-cast-overflow', '-fno-sanitize=float-divide-by-zero',
        '-fsanitize-recover=undefined,float-cast-overflow', '-fno-omit-frame-pointer', '-DPBT_UBSAN_HOOK'] + COMMON
 
@@ -59,7 +61,7 @@ class Stage:
 
     def __init__(self, name, sources, cmd=None, flags=(), libs=(), scale=1.0, env=None, kind='opt', only=None, deps=()):
         self.name, self.sources, self.flags, self.libs = name, list(sources), list(flags), list(libs)
-        self.cmd = list(cmd) if cmd else (list(SAN) if kind == 'san' else list(OPT))
+        self.cmd = list(cmd) if cmd else (list(SAN) if kind == 'san' else (FUZZ + COMMON) if kind == 'fuzz' else list(OPT))
         self.scale, self.env, self.kind, self.only = scale, dict(env or {}), kind, only
         self.deps = list(deps)  # extra files whose content participates in the cache key
         self.binary = None
@@ -77,7 +79,7 @@ class Stage:
         os.makedirs(d, exist_ok=True)
         t0 = time.time()
         objs, procs = [], []
-        for s in self.sources + (['engine/ubsan_hook.cpp'] if self.kind == 'san' else []):
+        for s in self.sources + (['engine/ubsan_hook.cpp'] if self.kind in ('san', 'fuzz') else []) + (['engine/fuzz_main.cpp'] if self.kind == 'fuzz' else []):
             o = os.path.join(d, os.path.basename(s) + '.o')
             objs.append(o)
             procs.append((s, subprocess.Popen(self.cmd + self.flags + ['-c', os.path.join(ROOT, s), '-o', o], stdout=subprocess.PIPE, stderr=subprocess.STDOUT, text=True)))
@@ -187,6 +189,66 @@ def run_stage(pid, st, tier, seed, extra_args=()):
     elif os.path.exists(trace):
         os.unlink(trace)
     return res, crash, wall
+
+
+def run_fuzz_stage(pid, st, tier, seed, known):
+    """Coverage-guided campaign (libFuzzer, 16 jobs) over the harness's targets; returns a result dict shaped like a harness result."""
+    import re, tempfile
+    secs = int(getattr(st, 'fuzz_seconds', {}).get(tier, 30))
+    work = os.path.join(st.dir, 'fuzz-%d' % os.getpid())
+    corpus, out = os.path.join(work, 'corpus'), os.path.join(work, 'out')
+    shutil.rmtree(work, ignore_errors=True)
+    os.makedirs(corpus); os.makedirs(out)
+    kk = os.path.join(work, 'known.txt')
+    with open(kk, 'w') as f:
+        for k in known.get('findings', []):
+            if k['property'] == pid:
+                f.write(k['key'] + '\n')
+    env = dict(os.environ)
+    env.update({'PBT_KNOWN_KEYS': kk, 'PBT_FUZZ_OUT': out, 'VERIF_TIER': tier, 'VERIF_REPO': REPO, 'PBT_QUIET': '1',
+                'ASAN_OPTIONS': 'detect_leaks=0:allocator_may_return_null=1', 'UBSAN_OPTIONS': 'print_stacktrace=0:suppress_equal_pcs=0'})
+    env.update(st.env)
+    ntargets = len([l for l in subprocess.run([st.binary, '-runs=0'], env=env, stdout=subprocess.PIPE, stderr=subprocess.STDOUT, text=True, cwd=work).stdout.splitlines() if False]) or 0
+    # structured seeds: one input per target index (all-zero choices = the simplest case of each generator)
+    m = re.search(r'\[fuzz\] (\d+) targets', subprocess.run([st.binary, '-runs=0'], env=env, stdout=subprocess.PIPE, stderr=subprocess.STDOUT, text=True, cwd=work).stdout)
+    ntargets = int(m.group(1)) if m else 1
+    for i in range(min(ntargets, 65536)):
+        with open(os.path.join(corpus, 'seed-%05d' % i), 'wb') as f:
+            f.write(struct.pack('<H', i) + b'\0' * 64)
+    t0 = time.time()
+    p = subprocess.run([st.binary, corpus, '-max_total_time=%d' % secs, '-jobs=%d' % NCPU, '-workers=%d' % NCPU, '-seed=%d' % (seed or 1), '-max_len=2050', '-len_control=0',
+                        '-print_final_stats=1', '-artifact_prefix=' + out + '/'], env=env, stdout=subprocess.PIPE, stderr=subprocess.STDOUT, text=True, cwd=work, errors='replace')
+    wall = time.time() - t0
+    execs, nontriv, cov, khits = 0, 0, 0, 0
+    for lf in glob.glob(os.path.join(work, 'fuzz-*.log')):
+        with open(lf, errors='replace') as f:
+            txt = f.read()
+        for mm in re.finditer(r'stat::number_of_executed_units:\s*(\d+)', txt):
+            execs += int(mm.group(1))
+        for mm in re.finditer(r'\[fuzz-stats\] execs=(\d+) nontrivial=(\d+) known=(\d+)', txt):
+            nontriv += int(mm.group(2)); khits += int(mm.group(3))
+        cs = [int(x) for x in re.findall(r'cov: (\d+)', txt)]
+        if cs:
+            cov = max(cov, max(cs))
+    ncorp = len(os.listdir(corpus))
+    fails = []
+    for rp in sorted(glob.glob(os.path.join(out, 'fuzz-*.json'))):
+        with open(rp) as f:
+            r = json.load(f)
+        fails.append({'key': r['key'], 'count': 1, 'choices': r['choices'], 'case': r.get('case', ''), 'detail': r.get('detail', ''), 'target': r['target']})
+    res = {'property_id': pid, 'tier': tier, 'seed': seed, 'wall_s': round(wall, 2), 'fuzz': True, 'targets': []}
+    by_t = {}
+    for fl in fails:
+        by_t.setdefault(fl['target'], []).append(fl)
+    res['targets'].append({'name': 'libfuzzer-campaign', 'rule': 'coverage-guided byte inputs decoded as (target index, forced choice sequence); non-trivial by the rule of the decoded target; distinct = corpus units kept for new coverage',
+                           'evaluations': execs, 'nontrivial': nontriv, 'distinct_nontrivial': min(ncorp, max(nontriv, 0)) if nontriv else 0, 'discarded': 0, 'exhaustive': False, 'wall_s': round(wall, 2),
+                           'classes': {'corpus_units': ncorp, 'coverage_edges': cov, 'known_finding_hits': khits, 'seconds_x_jobs': secs * NCPU}, 'metrics': {}, 'samples': [], 'failures': []})
+    for tname, fl in by_t.items():
+        res['targets'].append({'name': tname, 'rule': 'failures found by the fuzz campaign', 'evaluations': 0, 'nontrivial': 0, 'distinct_nontrivial': 0, 'discarded': 0, 'exhaustive': False, 'wall_s': 0,
+                               'classes': {}, 'metrics': {}, 'samples': [], 'failures': [{k: v for k, v in f.items() if k != 'target'} for f in fl]})
+    shutil.rmtree(work, ignore_errors=True)
+    log('[%s] fuzz stage %s: %d executions, %d corpus units, cov %d, %d failure file(s), %.0fs' % (pid, st.name, execs, ncorp, cov, len(fails), wall))
+    return res
 
 
 def read_trace(path):
@@ -369,7 +431,10 @@ def run_check(pid, spec, tier, seed, only_stage=None):
     # 2. search
     results = []
     for st in stages:
-        res, crash, wall = run_stage(pid, st, tier, seed)
+        if st.kind == 'fuzz':
+            res, crash, wall = run_fuzz_stage(pid, st, tier, seed, known), None, 0
+        else:
+            res, crash, wall = run_stage(pid, st, tier, seed)
         if crash:
             log('[%s] stage %s crashed (rc=%s); stderr tail:\n%s' % (pid, st.name, crash['returncode'], crash['stderr_tail']))
             cands = read_trace(crash['trace'])
@@ -410,7 +475,7 @@ def run_check(pid, spec, tier, seed, only_stage=None):
                     if not h['example']:
                         h['example'] = (fl['case'] + ' -> ' + fl['detail'])[:300]
                     continue
-                path = write_replay(pid, st.name, t['name'], fl['key'], fl['choices'], fl['case'], fl['detail'])
+                path = write_replay(pid, getattr(st, 'replay_stage', st.name), t['name'], fl['key'], fl['choices'], fl['case'], fl['detail'])
                 allfail, key, out = replay_file(pid, spec, path, 3, tier)
                 rec = {'stage': st.name, 'target': t['name'], 'key': fl['key'], 'replay': path, 'case': fl['case'], 'detail': fl['detail'], 'count': fl['count']}
                 if allfail and (key == fl['key'] or key == 'crash'):
